@@ -14,6 +14,17 @@ class RoleError(Exception):
     """A structural anchor the rules depend on could not be found (fail closed)."""
 
 
+class LazyRoles(dict):
+    """role -> body key; a role that could not be resolved raises RoleError only when a rule asks for it"""
+
+    def __init__(self):
+        super().__init__()
+        self.errors = {}
+
+    def __missing__(self, role):
+        raise RoleError(self.errors.get(role, 'cache-directory method role %s not found' % role))
+
+
 class Ctx:
     def __init__(self, facts, tier='quick', meta=None):
         self.facts = facts
@@ -294,7 +305,6 @@ class Ctx:
         tp = self.role('cachedir_trait')
         tr = self.traits[tp]
         provided = {m['key']: m['name'] for m in tr['methods'] if m.get('key')}
-        out = {}
         plain = None
         for imp in tr['impls']:
             # the implementor that is a public type with public get/set/put/touch methods
@@ -302,18 +312,31 @@ class Ctx:
                 plain = imp['self_ty_s']
         if plain is None:
             raise RoleError('no public implementor of the cache-directory trait')
+        characteristic = {'get': {'open_ro', 'open_rw'}, 'set': {'publish_replace'}, 'put': {'publish_excl'},
+                          'touch': {'meta_atime', 'meta_times', 'meta_times_h'}, 'ensure_temp': {'ns_create_dir'}}
+        out = LazyRoles()
         for role, api in (('get', 'get'), ('set', 'set'), ('put', 'put'), ('touch', 'touch'), ('ensure_temp', 'temp_dir')):
             k = self.by_path.get('%s::%s' % (plain, api))
             if k is None:
-                raise RoleError('public method %s::%s not found' % (plain, api))
+                out.errors[role] = 'public method %s::%s not found' % (plain, api)
+                continue
             callees = [c for c in self.cg.local_edges.get(k, ()) if c in provided]
+            if len(callees) > 1:
+                # several provided methods are called: the role is the one with the operation's characteristic effect
+                narrowed = [c for c in callees if self.cg.effects(c) & characteristic[role]]
+                if len(narrowed) > 1:
+                    # prefer the one whose *own* effect set is the smallest superset (e.g. not the maintenance helper)
+                    narrowed = sorted(narrowed, key=lambda c: len(self.cg.effects(c)))[:1]
+                callees = narrowed
             if len(callees) != 1:
-                raise RoleError('%s::%s does not delegate to exactly one cache-directory method (%s)' % (plain, api, callees))
+                out.errors[role] = '%s::%s does not delegate to exactly one cache-directory method (%s)' % (plain, api, callees)
+                continue
             out[role] = callees[0]
-        used = set(out.values())
+        used = set(v for v in out.values() if isinstance(v, str))
         out['maintain'] = [k for k in provided if k not in used and 'list_dir' in self.cg.effects(k)]
         if not out['maintain']:
-            raise RoleError('cache-directory maintenance methods not found')
+            out.errors['maintain'] = 'cache-directory maintenance methods not found'
+            del out['maintain']
         self._roles['cachedir_methods'] = out
         return out
 
